@@ -1,9 +1,9 @@
 package harness
 
 import (
-	"os"
 	"fmt"
 	"math/rand"
+	"os"
 	"reflect"
 	"strings"
 
